@@ -296,8 +296,10 @@ def gen_reads(rng, case, nframes, thorough):
             line += " f=" + flt
         return line
 
-    for _ in range(rng.randint(2, 5) if not thorough else rng.randint(3, 7)):
+    for _ in range(rng.randint(1, 3) if not thorough else rng.randint(3, 6)):
         ops.append(one_read())
+    for _ in range(rng.choice([0, 1, 1, 2]) if not thorough else rng.randint(1, 3)):
+        ops.append(gen_session(rng, case, nframes))
     if case["tok"].startswith("T:") and flt and rng.random() < 0.6:
         ops.append(f"offline {rng.choice(['pdu', 'buf'])} f={flt}")
     if rng.random() < 0.25:
@@ -305,6 +307,89 @@ def gen_reads(rng, case, nframes, thorough):
         ops.append(one_read())
         ops.append(one_read())
     return ops
+
+
+def gen_session(rng, case, nframes):
+    """a script of calls on ONE live FileSniffer: next_packet, sniff_loop, iteration, configuration calls (also from
+    inside the functor), stop_sniff, moves, link_type, interleaved at random"""
+    sf = case.get("sfilters", [])
+    n = max(1, nframes)
+
+    def side():
+        if rng.random() < 0.6:
+            return "-"
+        acts = ["ss", "r0", "r1", "fe"] + [f"f{k}" for k in range(len(sf))]
+        return "+".join(f"{rng.randrange(min(n, 3))}.{rng.choice(acts)}" for _ in range(rng.randint(1, 2)))
+
+    def tok():
+        r = rng.random()
+        if r < 0.22:
+            return "np"
+        if r < 0.40:
+            mx = rng.choice([0, 1, 1, 2, 2, 3, n, rng.randint(1, n)])
+            stop = rng.choice([0, 0, 1, 2, rng.randint(1, n)])
+            thr = "-"
+            if rng.random() < 0.4:
+                idx = sorted(set(rng.randrange(min(n, 4)) for _ in range(rng.randint(1, 3))))
+                thr = "+".join(f"{i}.{rng.choice(['mal', 'nf', 'mal', 'nf', 'oth'])}" for i in idx)
+            return f"loop:{mx}:{stop}:{thr}:{rng.choice(['k', 'k', 'u'])}:{side()}"
+        if r < 0.55:
+            return f"iter:{rng.choice([0, 1, 1, 2, 2, rng.randint(1, n)])}:{rng.choice([0, 0, 1])}:{side()}"
+        if r < 0.65:
+            return f"raw:{rng.randrange(2)}"
+        if r < 0.75:
+            return "filt:" + (str(rng.randrange(len(sf))) if sf and rng.random() < 0.8 else "e")
+        if r < 0.79:
+            return f"bad:{rng.randrange(6)}"
+        if r < 0.84:
+            return "meth:" + rng.choice("ldx")
+        if r < 0.89:
+            return "mvc"
+        if r < 0.94:
+            return "mva"
+        if r < 0.97:
+            return "ss"
+        return "lt"
+
+    script = [tok() for _ in range(rng.randint(2, 9))]
+    if rng.random() < 0.9:
+        script.append("drain")
+    init = str(rng.randrange(len(sf))) if sf and rng.random() < 0.3 else "none"
+    line = f"session src={'fp' if rng.random() < 0.2 else 'name'} init={init} s={','.join(script)}"
+    return line + "".join(" |f| " + f for f in sf)
+
+
+def gen_wplan(rng, frames):
+    """how the frames reach the writer: write(Packet&), write(PDU&), write(T&), write(begin, end) over several
+    containers, with moves of the live writer in between; returns the plan and the frames (wall-clock written ones
+    get a scripted clock reading the file format can hold; by-value ranges hold RawPDUs)"""
+    plan, i, n = [], 0, len(frames)
+    frames = list(frames)
+
+    def wall(j, raw=False):
+        how, _, _, b = frames[j]
+        sec, usec = rng.choice([(rng.randrange(0, 2**31), rng.randrange(0, 10**6)), (0, 0), (2**31 - 1, 999999)])
+        frames[j] = ("raw" if raw else how, sec, usec, b)
+
+    while i < n:
+        r = rng.random()
+        if r < 0.55:
+            plan.append(("w", i)); i += 1
+        elif r < 0.70:
+            wall(i); plan.append(("wp", i)); i += 1
+        elif r < 0.78:
+            wall(i); plan.append(("wq", i)); i += 1
+        else:
+            k = min(n - i, rng.choice([0, 1, 2, 3, 5]))
+            kind = rng.choice(["val", "ptr", "uptr", "sptr", "list"])
+            for j in range(i, i + k):
+                wall(j, raw=(kind == "val"))
+            plan.append(("range", kind, list(range(i, i + k)))); i += k
+        if rng.random() < 0.08:
+            plan.append((rng.choice(["wmv", "wma"]),))
+    if rng.random() < 0.1:
+        plan.append(("range", rng.choice(["val", "ptr", "list"]), []))
+    return plan, frames
 
 
 def gen_case(rng, toks, valid_filters, thorough, big=False):
@@ -321,7 +406,12 @@ def gen_case(rng, toks, valid_filters, thorough, big=False):
             how = "pdu:" + rng.choice(PDU_CLASS[dlt])
         sec, usec = gen_ts(rng)
         frames.append((how, sec, usec, b))
-    return dict(tok=tok, dlt=dlt, method=method, filter=flt, frames=frames)
+    c = dict(tok=tok, dlt=dlt, method=method, filter=flt, frames=frames)
+    if fl and rng.random() < 0.6:
+        c["sfilters"] = rng.sample(fl, min(len(fl), rng.randint(1, 3)))
+    if rng.random() < 0.5 and not big:
+        c["wplan"], c["frames"] = gen_wplan(rng, frames)
+    return c
 
 
 def regression_cases():
@@ -386,19 +476,34 @@ def build_ops(chk, exe, cases, excluded):
         key = tag + " " + (a.split(" ")[1].split("@")[-1] if a.startswith("FAULT") and " " in a else a.split(" ")[0])
         excluded[key] = excluded.get(key, 0) + 1
 
+    # pass 3: what a savefile-compiled program of every session filter says about the stored bytes
+    lines3, where3 = [], []
+    for key in where2:
+        c = cases[key[0]]
+        a = ann1[key].split(" ")
+        for k, f in enumerate(c.get("sfilters", [])):
+            lines3.append(f"annf {c['dlt']} {a[1][4:]} {a[0][2:]} f={f}")
+            where3.append((key, k))
+    res3, _ = core.run_harness_lines(exe, args, lines3, ("ann", "annp", "annf")) if lines3 else ([], [])
+    xbits = {}
+    for (key, k), r in zip(where3, res3):
+        xbits.setdefault(key, {})[k] = "1" if r == "x=1" else "0"
+
     ops = []
     for ci, c in enumerate(cases):
         ops.append(f"file {c['tok']} {c['method']}")
         kept = 0
+        nsf = len(c.get("sfilters", []))
+        tails = {}
         for fi, (how, sec, usec, b) in enumerate(c["frames"]):
             a = ann1.get((ci, fi), "")
             if a.startswith("s=throw:"):
-                ops.append(f"w {how} {sec} {usec} {hexs(b)} | {a}")
+                tails[fi] = f"{how} {sec} {usec} {hexs(b)} | {a}"
                 continue
             if not a.startswith("s="):
                 if how == "raw":
                     # the writer's own path (RawPDU::serialize, pcap) failed in the direct call: keep the frame
-                    ops.append(f"w {how} {sec} {usec} {hexs(b)} | s={hexs(b)} adv={len(b)} m=1 mo=1 p:RawPDU=ok:0/{len(b)}/0")
+                    tails[fi] = f"{how} {sec} {usec} {hexs(b)} | s={hexs(b)} adv={len(b)} m=1 mo=1 p:RawPDU=ok:0/{len(b)}/0"
                     kept += 1
                 else:
                     drop("write-side", a)
@@ -407,16 +512,33 @@ def build_ops(chk, exe, cases, excluded):
             if not p.startswith("p:"):
                 drop("dissector", p)
                 continue
-            ops.append(f"w {how} {sec} {usec} {hexs(b)} | {a} {p}")
+            x = ""
+            if nsf:
+                x = " x=" + "".join(xbits.get((ci, fi), {}).get(k, "0") for k in range(nsf))
+            tails[fi] = f"{how} {sec} {usec} {hexs(b)} | {a}{x} {p}"
             kept += 1
+        plan = c.get("wplan") or [("w", fi) for fi in range(len(c["frames"]))]
+        for step in plan:
+            if step[0] in ("w", "wp", "wq"):
+                if step[1] in tails:
+                    ops.append(f"{step[0]} {tails[step[1]]}")
+            elif step[0] == "range":
+                ops.append(f"wr-begin {step[1]}")
+                ops += [f"wr-item {tails[fi]}" for fi in step[2] if fi in tails and "| s=throw:" not in tails[fi]]
+                ops.append("wr-end")
+            else:
+                ops.append(step[0])
         ops += c["tail"](kept) if callable(c.get("tail")) else c.get("tail", [])
     return ops
 
 
 def classify(op, impl):
     w = op.split(" ")
-    if w[0] == "w":
-        tag = "w:" + w[1].split(":")[0]
+    if w[0] == "session":
+        kinds = sorted(set(t.split(":")[0] for t in next((x[2:] for x in w if x.startswith("s=")), "").split(",")))
+        return "session:" + "+".join(kinds)[:60] + (":escape" if "escape" in impl else "")
+    if w[0] in ("w", "wp", "wq", "wr-item"):
+        tag = w[0] + ":" + w[1].split(":")[0]
         if " p:" in op:
             outs = [x.split("=", 1)[1].split(":")[0] for x in op.split(" ") if x.startswith("p:") and not x.startswith("p:RawPDU")]
             tag += ":" + ("parses" if "ok" in outs else "exc" if "exc" in outs else "malformed")
@@ -488,6 +610,30 @@ def run(chk):
     for tok, dlt in unsupported:
         reg.append(dict(tok=tok, dlt=dlt, method="loop", filter="", frames=[],
                         tail=["close", "read api=next filt=none raw=0"]))
+    # every link type of the writer's API x time stamps at the boundaries of the 32-bit file fields: the bytes pcap_dump
+    # wrote are compared with the model's encodeFile (size and hash of the whole file), then read back
+    ip4 = bytes.fromhex("4500001c000100004011f97b0a0000010a00000200350035000800001122")
+    stamps = [(0, 0), (0, 999999), (1, 1000000), (2**31 - 1, 999999), (2**31, 0), (2**32 - 1, 999999), (2**32, 0),
+              (2**32 + 1, 5), (-1, 0), (-(2**31), 0), (1700000000, 1999999), (2**31 - 2, 1999999)]
+    for tok, dlt in toks:
+        reg.append(dict(tok=tok, dlt=dlt, method="exact", filter="",
+                        frames=[("raw", sec, usec, BUILDERS[dlt](random.Random(7 + i)) if i % 2 else ip4)
+                                for i, (sec, usec) in enumerate(stamps)],
+                        tail=["close", "read api=next filt=none raw=1", "read api=next filt=none raw=0",
+                              "session src=name init=none s=lt,np,loop:2:0:-:k:-,iter:1:1:-,mvc,raw:1,np,mva,drain"]))
+    # the other write calls: wall-clock stamped write(PDU&) / write(T&) / write(begin, end) over every container, moves of the
+    # live writer mid-file, an advertised size that differs from the serialized size (IP total length beyond the capture)
+    ip_long = bytes.fromhex("450005dc000100004011f97b0a0000010a00000200350035000800001122")
+    for kind in ["val", "ptr", "uptr", "sptr", "list"]:
+        fr = [("raw", 5, 5, ip4), ("raw", 2**31 - 1, 999999, b""), ("pdu:IP", 0, 0, ip_long), ("raw", 9, 9, ip4[:9]),
+              ("pdu:IP", 77, 7, ip_long), ("raw", 8, 8, ip4)]
+        if kind == "val":
+            fr = [("raw",) + f[1:] for f in fr]
+        reg.append(dict(tok="T:IP", dlt=12, method="exact", filter="", frames=fr,
+                        wplan=[("w", 0), ("range", kind, [1, 2, 3]), ("wmv",), ("wp", 4), ("wma",), ("wq", 5),
+                               ("range", kind, [])],
+                        tail=["close", "read api=next filt=none raw=1", "read api=loop filt=none raw=0 max=2",
+                              "session src=name init=none s=np,ss,np,np,raw:1,loop:0:0:1.mal+2.oth:k:0.ss,drain"]))
     # frames of unsupported DLTs cannot be annotated with CLASSES; they have no frames
     run_batch(reg)
     # 2. seeded random cases
